@@ -32,7 +32,6 @@ theorem bne_done_done : (Phase.done != Phase.done) = false := by decide
 theorem stepTask_mem {val : Nat} {t : Task} (plan : Plan) (acc : Bool)
     (hf : t.phase = .fresh → t.accepted = false) :
     memAfter (inSet t) (stepTask val t plan acc).2 = some (inSet (stepTask val t plan acc).1) := by
-  simp only [stepTask, startTask, afterFirst, atAwait, afterLoop, finish, cancelStep]
-  repeat' split
+  step_paths
   all_goals simp_all [memAfter, inSet, bne_done_fresh, bne_done_first, bne_done_wait, bne_done_loop,
-    bne_done_plain, bne_done_done]
+    bne_done_plain]
